@@ -211,6 +211,9 @@ nanmedian = partial(partial(_np_grouped_op, q=0.5), op=partial(quantile_, skipna
 
 
 def sum_of_squares(group_idx, array, *, axis=-1, size=None, fill_value=None, dtype=None):
+    if dtype is not None:
+        # square in the accumulation dtype: the squares of int8 values do not fit int8
+        array = array.astype(np.result_type(array.dtype, dtype), copy=False)
     return sum(
         group_idx,
         array**2,
